@@ -69,7 +69,13 @@ def coq_case(req, res):
     else:
         o = "EPanic"
     uf = "[" + "; ".join("mkUF %d %d %d %d" % u for u in ufs) + "]"
-    return "mkCase %s %d %s %s %s" % (DIRS[d], lvl, coq_pairs(text), uf, o)
+    # evaluation cut (Model/Morx.v eval_fuel): cases with a long output run uncut; the others are abandoned (and counted) when a
+    # streaming subtable loops more than EVAL_CAP times — an exploding intermediate buffer costs the list-based model minutes
+    cap = 0 if heavy(res) else EVAL_CAP
+    return "mkCase %s %d %s %s %s %d" % (DIRS[d], lvl, coq_pairs(text), uf, o, cap)
+
+
+EVAL_CAP = 2500
 
 
 def heavy(res):
@@ -179,7 +185,7 @@ def correspondence(chk, binp, n_fonts, texts, per_file, max_heavy):
     # a file of ~400 short cases takes 5-30 s; a run-away model evaluation (only when the implementation deviates) is cut off
     res = C.coq_eval_many(jobs, timeout=600)
     dis = []
-    tot = {"cases": 0, "agree": 0, "outside_table": 0, "outside_alloc": 0, "both_fail": 0, "moved": 0,
+    tot = {"cases": 0, "agree": 0, "outside_table": 0, "outside_alloc": 0, "both_fail": 0, "evaluation_abandoned": 0, "moved": 0,
            "long_output_cases": len(heavy_cases), "long_output_cases_compared": len(chosen)}
     kinds = {k: [0, 0] for k in KINDS}
     for name, out in sorted(res.items()):
@@ -187,7 +193,7 @@ def correspondence(chk, binp, n_fonts, texts, per_file, max_heavy):
             dis.append({"what": "cases-file-failed", "file": name, "error": str(out)[-800:]})
             continue
         lists = C.parse_eval_lists(out)
-        if not lists or len(lists[0]) < 1 or len(lists[0]) != 1 + lists[0][0] + 5 + 10 + 1:
+        if not lists or len(lists[0]) < 1 or len(lists[0]) != 1 + lists[0][0] + 6 + 10 + 1:
             dis.append({"what": "no-answer", "file": name, "raw": out[-300:]})
             continue
         l = lists[0]
@@ -197,12 +203,12 @@ def correspondence(chk, binp, n_fonts, texts, per_file, max_heavy):
             dis.append({"what": "model-and-implementation-differ", "font": i, "text": j, "request": r, "implementation": o[:2000],
                         "font_term": fonts[i], "feat_term": FEATS.get(i, "None")})
         st = l[1 + k:]
-        for key, v in zip(["cases", "agree", "outside_table", "outside_alloc", "both_fail"], st[:5]):
+        for key, v in zip(["cases", "agree", "outside_table", "outside_alloc", "both_fail", "evaluation_abandoned"], st[:6]):
             tot[key] += v
         for n_, kname in enumerate(KINDS):
-            kinds[kname][0] += st[5 + 2 * n_]
-            kinds[kname][1] += st[6 + 2 * n_]
-        tot["moved"] += st[15]
+            kinds[kname][0] += st[6 + 2 * n_]
+            kinds[kname][1] += st[7 + 2 * n_]
+        tot["moved"] += st[16]
     return dis, tot, kinds, generic, fonts
 
 
